@@ -44,6 +44,8 @@ def run(ctx):
     rep.rule('R12.12', 'rowgetter returns selectors that raise IndexError on a short row (subscript / itemgetter, never a slice)')
     r1211(ctx, rep)
     r1212(ctx, rep)
+    rep.rule('R12.14', 'rename is simultaneous: the output header is computed from the input names, never read back while it is being built')
+    r1214(ctx, rep)
     from ..typestate import check_sentinels as _sentinels
     rep.rule('R12.10', 'a local that starts as None is not compared (==, !=) with per-row values before it was tested for None: None is a legal key and cell value')
     ctx.floor('sentinel_scan_functions', _sentinels(ctx, rep, 'R12.10', ctx.functions(['petl.transform', 'petl.util.base'])), 200)
@@ -245,7 +247,9 @@ def r123(ctx, rep):
             before = pth.effects[:[i for i, st in enumerate(pth.effects) if any(c is app[0] for c in ast.walk(st))][0]]
             v = norm(resolve(app[0].args[0], before))
             if v == s:
-                gots.add('index')
+                consumes = any(isinstance(st, ast.Assign) and len(st.targets) == 1 and isinstance(st.targets[0], ast.Subscript)
+                               and norm(st.targets[0].value) == names_list for st in pth.effects)
+                gots.add('index-consumes-a-name' if consumes else 'index')
             elif v == '%s.index(%s)' % (names_list, s):
                 consumed = False
                 for i, st in enumerate(pth.effects):
@@ -264,7 +268,8 @@ def r123(ctx, rep):
         else:
             rep.violated('R12.3', fn, case,
                          'field spec resolves as `%s`, documented behaviour is `%s` (an in-range index has priority over a '
-                         'name; a name is consumed so that duplicate field names resolve left to right)' % (got, want), lp)
+                         'name and does not use up any name; a name is consumed so that duplicate field names resolve left to '
+                         'right)' % (got, want), lp)
 
 
 # ------------------------------------------------------------------------ R12.4
@@ -563,3 +568,49 @@ def r1212(ctx, rep):
             rep.undecided('R12.12', fn, c, 'selector shape not recognised', node)
     if n < 3:
         raise AnalysisError('anchor vanished: rowgetter returns %d selectors' % n)
+
+
+# ----------------------------------------------------------------------- R12.14
+def r1214(ctx, rep):
+    """rename(spec) renames simultaneously: each output name is decided from the *input* field at that position (by
+    index first, then by name).  Built step by step from the output header itself (read and re-written inside a loop
+    over the spec), an earlier rename feeds a later one: a swap or a shift of names collapses."""
+    fn = ctx.project.need_fn('petl.transform.headers:iterrename')
+    ys = [x for x in own_nodes(fn.node) if isinstance(x, ast.Yield) and x.value is not None]
+    if not ys:
+        raise AnalysisError('anchor vanished: header yield of iterrename')
+    first = sorted(ys, key=lambda y: y.lineno)[0].value
+    hv = None
+    funcs = {id(c.func) for c in ast.walk(first) if isinstance(c, ast.Call)}
+    for x in ast.walk(first):
+        if isinstance(x, ast.Name) and id(x) not in funcs:
+            hv = x.id
+            break
+    if hv is None:
+        rep.undecided('R12.14', fn, 'output header', 'header expression not recognised', fn.node)
+        return
+    bad = None
+    for lp in [x for x in own_nodes(fn.node) if isinstance(x, (ast.For, ast.While))]:
+        writes = [x for b in lp.body for x in ast.walk(b)
+                  if (isinstance(x, ast.Assign) and any(norm(t) == hv or (isinstance(t, ast.Subscript) and norm(t.value) == hv)
+                                                        for t in x.targets))]
+        if not writes:
+            continue
+        # reads of the header variable's *content* inside the loop (len() does not depend on earlier renames)
+        pm = parent_map(fn.node)
+        for b in lp.body:
+            for x in ast.walk(b):
+                if isinstance(x, ast.Name) and x.id == hv and isinstance(x.ctx, ast.Load):
+                    p = pm.get(id(x))
+                    if isinstance(p, ast.Call) and norm(p.func) == 'len':
+                        continue
+                    if isinstance(p, ast.Subscript) and isinstance(p.ctx, ast.Store):
+                        continue
+                    bad = (lp, x)
+    if bad:
+        rep.violated('R12.14', fn, 'output header built from %s' % hv,
+                     'the output header `%s` is read and re-written inside a loop over the renames: a field renamed by one entry '
+                     'is seen under its new name by the next entry, so {a: b, b: a} or a chain of renames does not do what a '
+                     'simultaneous rename does' % hv, bad[0])
+    else:
+        rep.held('R12.14', fn, 'output header built from the input names', '', fn.node)
